@@ -340,6 +340,9 @@ def run(ctx):
         if ctx.n_new() == 0:
             run_demo(ctx, 'demo_tr3.py', [1 + ctx.seed], 'c13-code-vs-generated-vs-model',
                      'spn_to_digraph / digraph_to_spn vs generated definitions vs Io model', env_extra=dict(DEMO_SECTIONS='f'))
+        if ctx.n_new() == 0:
+            run_demo(ctx, 'demo_graphio.py', [1 + ctx.seed], 'c13-clt-json-vs-model',
+                     'binary_clt_to_digraph / digraph_to_binary_clt against the document model (3 generations, exact)')
 
 
 def replay(rep):
